@@ -153,6 +153,12 @@ def cases(tier, seed):
             limited = shape in ("amp_chain", "reference_steps") and n > 120
             yield {"kind": "density:" + shape, "build": "rel" if n > 200 else "chk", "data": text, "meta": {"n": n},
                    "expect": None if limited else "accept", "shape": shape + ("" if n <= 200 else ":large")}
+    # generated well-formed modules of every statement / expression density must be accepted
+    from . import gen_syntax
+    for i in range(300 if quick else 20000):
+        g_rng = common.rng_for(seed, PROP, "g2", i)
+        yield {"kind": "g2", "data": gen_syntax.module_text(g_rng, size=g_rng.choice([1, 3, 8, 20])), "expect": "accept",
+               "shape": "generated module"}
     # injected invalid lexemes
     for i in range(300 if quick else 20000):
         p, t = rng.choice(corpus)
